@@ -30,9 +30,10 @@ func init() {
 	}
 }
 
-// probeOversizeMetadata runs the one region of `Accepted` that is cheap to reach but too large for the line
-// protocol: a metadata blob one byte above the 100 MB cap that AddChunk enforces and SetICCProfile does not.
-// Go only (the model's answer is a theorem: both parser models reject payloads > maxMetadataSize).
+// probeOversizeMetadata runs the one region that is cheap to reach but too large for the line protocol: a metadata
+// blob at and one byte above the 100 MB cap of the readers.  Since b6500d8 `validate` must refuse the larger one with a
+// validation error before anything is written (AddChunk already did; SetICCProfile stores it).  Go only — the model's
+// answer is `validateWith`'s `limits` check plus the theorem that every accepted state reads back.
 func probeOversizeMetadata(rep *Report) {
 	const cap = 100 * 1024 * 1024
 	for _, n := range []int{cap, cap + 1} {
@@ -42,21 +43,31 @@ func probeOversizeMetadata(rep *Report) {
 		m.SetICCProfile(blob)
 		var buf bytes.Buffer
 		err := m.Assemble(&buf)
+		in := map[string]any{"op": "mux-probe", "ops": fmt.Sprintf("AF0:2f00000000;IC:<%d zero bytes>", n)}
 		rep.Count(fmt.Sprintf("probe:icc:%d:assemble-ok=%v", n, err == nil))
+		rep.Eval(true, []byte(fmt.Sprintf("probe-icc-%d", n)))
 		if err != nil {
 			if buf.Len() != 0 {
 				rep.Add(Finding{Kind: "property", Property: "C14", Signature: "mux.Assemble:error-after-write",
-					Detail: fmt.Sprintf("Assemble returned %v after writing %d bytes", err, buf.Len()),
-					Input:  map[string]any{"op": "mux-probe", "ops": fmt.Sprintf("SetICCProfile(%d zero bytes)", n)}})
+					Detail: fmt.Sprintf("Assemble returned %v after writing %d bytes", err, buf.Len()), Input: in})
+			}
+			if n <= cap || !errors.Is(err, mux.ErrMuxValidation) {
+				rep.Add(Finding{Kind: "correspondence", Signature: "mux-model:metadata-limit",
+					Detail: fmt.Sprintf("SetICCProfile(%d bytes): Assemble returned %v; the model expects %s", n, err,
+						map[bool]string{true: "success", false: "a validation error"}[n <= cap]), Input: in})
 			}
 			continue
+		}
+		if n > cap {
+			rep.Add(Finding{Kind: "correspondence", Signature: "mux-model:metadata-limit",
+				Detail: fmt.Sprintf("SetICCProfile(%d bytes): Assemble succeeded; the model expects a validation error", n), Input: in})
 		}
 		_, derr := mux.NewDemuxer(buf.Bytes())
 		_, perr := verifapi.NewContainerParser(buf.Bytes())
 		if derr != nil || perr != nil {
 			rep.Add(Finding{Kind: "property", Property: "C14", Signature: "mux-roundtrip:oversize-metadata-accepted",
 				Detail: fmt.Sprintf("SetICCProfile(%d bytes) + Assemble succeed (%d bytes), NewDemuxer: %v, container.NewParser: %v", n, buf.Len(), derr, perr),
-				Input:  map[string]any{"op": "mux-probe", "ops": fmt.Sprintf("AF0:2f00000000;IC:<%d zero bytes>", n)}})
+				Input:  in})
 		}
 	}
 }
@@ -167,12 +178,12 @@ type shadowFrame struct {
 }
 
 type shadow struct {
-	frames                       []shadowFrame
-	icc, exif, xmp               []byte
-	hasICC, hasEXIF, hasXMP      bool
-	bg                           uint32
-	loop                         int
-	cw, ch                       int
+	frames                  []shadowFrame
+	icc, exif, xmp          []byte
+	hasICC, hasEXIF, hasXMP bool
+	bg                      uint32
+	loop                    int
+	cw, ch                  int
 }
 
 func clampI(v, lo, hi int) int {
@@ -463,15 +474,15 @@ func buildMuxPool(seed uint64, rich bool) *muxPool {
 	mut := func(d []byte, f func([]byte)) []byte { c := append([]byte{}, d...); f(c); return c }
 	for _, g := range [][]byte{
 		{0}, {1, 2, 3}, r.Bytes(9), r.Bytes(24), []byte("ALPH"), []byte("ALPH\x00\x00\x00\x00"),
-		append([]byte("ALPH\x03\x00\x00\x00"), 1, 2, 3),               // ALPH chunk, no bitstream, odd size without pad
-		append([]byte("ALPH\xff\xff\xff\xff"), vp8...),                // ALPH size runs past the data
+		append([]byte("ALPH\x03\x00\x00\x00"), 1, 2, 3),                // ALPH chunk, no bitstream, odd size without pad
+		append([]byte("ALPH\xff\xff\xff\xff"), vp8...),                 // ALPH size runs past the data
 		append([]byte("ALPH\x02\x00\x00\x00\x01\x02"), r.Bytes(12)...), // ALPH + garbage
-		{0x2f}, {0x2f, 0, 0, 0},                                       // VP8L signature, short
-		mut(vp8l, func(c []byte) { c[4] |= 0x20 }),                    // VP8L version 1
-		mut(vp8, func(c []byte) { c[0] |= 1 }),                        // VP8 inter frame
-		mut(vp8, func(c []byte) { c[3] = 0 }),                         // VP8 bad start code
-		mut(vp8, func(c []byte) { c[6], c[7] = 0, 0 }),                // VP8 width 0
-		mut(vp8, func(c []byte) { c[8], c[9] = 0, 0xc0 }),             // VP8 height 0 after masking the scale bits
+		{0x2f}, {0x2f, 0, 0, 0}, // VP8L signature, short
+		mut(vp8l, func(c []byte) { c[4] |= 0x20 }),        // VP8L version 1
+		mut(vp8, func(c []byte) { c[0] |= 1 }),            // VP8 inter frame
+		mut(vp8, func(c []byte) { c[3] = 0 }),             // VP8 bad start code
+		mut(vp8, func(c []byte) { c[6], c[7] = 0, 0 }),    // VP8 width 0
+		mut(vp8, func(c []byte) { c[8], c[9] = 0, 0xc0 }), // VP8 height 0 after masking the scale bits
 		vp8[:9], vp8l[:4],
 	} {
 		add(&p.garbage, g)
